@@ -418,21 +418,85 @@ func ruleNamespaceFlattening(c *core.Ctx) {
 		return
 	}
 	ff := c.SSAFunc(fl)
-	var visiteds, nss []*ssa.Parameter
+	var visiteds, nss []ssa.Value
+	var recs []*ssa.Call
 	if ff != nil {
-		visiteds = paramsByType(ff, func(t types.Type) bool { return isMapTo(t, isBoolType) })
-		nss = paramsByType(ff, isPtrToNamed("Namespace"))
+		for _, p := range paramsByType(ff, func(t types.Type) bool { return isMapTo(t, isBoolType) }) {
+			visiteds = append(visiteds, p)
+		}
+		for _, p := range paramsByType(ff, isPtrToNamed("Namespace")) {
+			nss = append(nss, p)
+		}
+		recs = callsOf(ff, fl)
 	}
-	if ff == nil || len(visiteds) != 1 || len(nss) != 1 || len(callsOf(ff, fl)) == 0 {
+	if ff != nil && len(recs) == 0 {
+		// the recursion may live in a local closure that calls itself through the variable it is stored in:
+		//   var visit func(*Namespace); visit = func(ns *Namespace) { ... visit(ref) ... }
+		for _, w := range ff.AnonFuncs {
+			var selfVar *ssa.FreeVar
+			for _, b := range ff.Blocks {
+				for _, ins := range b.Instrs {
+					mc, ok := ins.(*ssa.MakeClosure)
+					if !ok || mc.Fn != ssa.Value(w) {
+						continue
+					}
+					for i, bd := range mc.Bindings {
+						al, isAlloc := bd.(*ssa.Alloc)
+						if !isAlloc {
+							continue
+						}
+						for _, r := range *al.Referrers() {
+							if st, isStore := r.(*ssa.Store); isStore && st.Addr == ssa.Value(al) {
+								if st.Val == ssa.Value(mc) {
+									selfVar = w.FreeVars[i]
+								} else if ci, isCI := st.Val.(*ssa.ChangeType); isCI && ci.X == ssa.Value(mc) {
+									selfVar = w.FreeVars[i]
+								}
+							}
+						}
+					}
+				}
+			}
+			if selfVar == nil {
+				continue
+			}
+			var wrecs []*ssa.Call
+			for _, b := range w.Blocks {
+				for _, ins := range b.Instrs {
+					if sc, ok := ins.(*ssa.Call); ok && sameOrLoaded(sc.Common().Value, selfVar) && sc.Common().Value != ssa.Value(selfVar) {
+						wrecs = append(wrecs, sc)
+					}
+				}
+			}
+			if len(wrecs) == 0 {
+				continue
+			}
+			// the worker: its namespace parameter, and the visited map it sees (parameter or captured)
+			visiteds, nss = nil, nil
+			for _, p := range paramsByType(w, isPtrToNamed("Namespace")) {
+				nss = append(nss, p)
+			}
+			for _, p := range paramsByType(w, func(t types.Type) bool { return isMapTo(t, isBoolType) }) {
+				visiteds = append(visiteds, p)
+			}
+			for _, fv := range w.FreeVars {
+				if pt, ok := fv.Type().Underlying().(*types.Pointer); ok && isMapTo(pt.Elem(), isBoolType) {
+					visiteds = append(visiteds, fv)
+				}
+			}
+			ff, recs = w, wrecs
+			break
+		}
+	}
+	if ff == nil || len(visiteds) != 1 || len(nss) != 1 || len(recs) == 0 {
 		c.Undecided(rule, "flattenNamespaces/shape", fd.Pos(), "expected the recursive form with one map[*Namespace]bool and one *Namespace parameter")
 		return
 	}
 	visited, ns := visiteds[0], nss[0]
-	recs := callsOf(ff, fl)
 	var notVisited *ssa.BasicBlock
 	ifEdges(ff, func(b *ssa.BasicBlock, cond ssa.Value, t, e *ssa.BasicBlock) {
 		if lk := mapLookupOn(cond, visited); lk != nil && notVisited == nil {
-			if lk.Index == ssa.Value(ns) {
+			if lk.Index == ns {
 				notVisited = e
 			}
 		}
@@ -459,7 +523,7 @@ func ruleNamespaceFlattening(c *core.Ctx) {
 					for _, r := range *al.Referrers() {
 						if ia, ok := r.(*ssa.IndexAddr); ok {
 							for _, rr := range *ia.Referrers() {
-								if st, ok := rr.(*ssa.Store); ok && st.Val == ssa.Value(ns) {
+								if st, ok := rr.(*ssa.Store); ok && st.Val == ns {
 									appends = append(appends, ins)
 								}
 							}
